@@ -505,7 +505,7 @@ def subscript(ex, st, base, sl_, node):
                 raise Unsupported('stepped slice of a sequence')
             lo, hi = lohi
             used('list[lo:hi] -> shifted sequence of length hi-lo (requires 0 <= lo <= hi <= len)')
-            ex.oblige(st, 'safety', 'slice-in-range', z3.And(Z(lo) >= 0, Z(lo) <= Z(hi), Z(hi) <= b.n), node)
+            ex.oblige(st, 'restriction', 'slice-in-range', z3.And(Z(lo) >= 0, Z(lo) <= Z(hi), Z(hi) <= b.n), node)
             k = z3.Int('k!s')
             arr = ex.fresh('slice', b.arr.sort())
             st.assume(z3.ForAll([k], arr[k] == b.arr[k + Z(lo)], patterns=[arr[k]]))
@@ -530,7 +530,7 @@ def arr_index(ex, st, a, sl_, node):
                 used('v[::-1] -> reversed vector (same length)')
                 return VArr(a.shape, None, a.tag if a.tag != 'vec' else None, a.dtype)
             lo, hi = lohi
-            ex.oblige(st, 'safety', 'slice-in-range', z3.And(Z(lo) >= 0, Z(lo) <= Z(hi), Z(hi) <= Z(a.shape[0])), node)
+            ex.oblige(st, 'restriction', 'slice-in-range', z3.And(Z(lo) >= 0, Z(lo) <= Z(hi), Z(hi) <= Z(a.shape[0])), node)
             if a.tag == 'ivec' and a.t is not None:
                 k = z3.Int('k!s')
                 arr = ex.fresh('vslice', a.t.sort())
